@@ -1707,7 +1707,8 @@ int32 parseServerHello(ssl_t *ssl, int32 hsLen, unsigned char **cp,
           as a terminator, and it is not possible to disable it at run-time.
         */
         if (ssl->cipher == NULL
-                || ssl->cipher->ident == SSL_NULL_WITH_NULL_NULL)
+                || ssl->cipher->ident == SSL_NULL_WITH_NULL_NULL
+                || !sslClientOfferedSuite(ssl, cipher))
         {
             ssl->err = SSL_ALERT_HANDSHAKE_FAILURE;
             psTraceIntInfo("Can't support requested cipher: %d\n", cipher);
